@@ -220,8 +220,10 @@ def dspacingFromTof (c sAng tof Ltotal twoTheta : α) : α :=
 /-- `_energy_constant(energy_unit, tof, length)`: `to_unit(m_n / 2, energy_unit * (unit(tof)/unit(length))**2)` -/
 def cEnergy (mn sE sL sT : α) : α := toUnitC (mn / i64 2) (sE * sq (sT / sL))
 
-/-- `energy_from_tof`: `as_float_type(c * as_float_type(Ltotal, c)**2, tof) / tof ** scalar(2, dtype=dtype(tof))` -/
-def energyFromTof (c tof Ltotal : α) : α := asFloatLike (c * sq (asFloatLike Ltotal c)) tof / sqSame tof
+/-- `energy_from_tof`: with `t = as_float_type(tof, tof)` (an integer tof is squared in double precision: no int64
+overflow, no missing int32 power): `as_float_type(c * as_float_type(Ltotal, c)**2, tof) / t ** scalar(2, dtype=dtype(t))` -/
+def energyFromTof (c tof Ltotal : α) : α :=
+  asFloatLike (c * sq (asFloatLike Ltotal c)) tof / sqSame (asFloatLike tof tof)
 
 /-- `as_float_type(to_unit(h**2 / 2 / m_n, meV * unit(wavelength)**2), wavelength)` -/
 def cEnergyFromWavelength (h mn sE sW wavelength : α) : α :=
